@@ -707,6 +707,39 @@ def parse_stream_waits(out):
     return res
 
 
+def explain_blockdep(case, op_index):
+    """what the validator saw for a rejected BLOCKDEP: the pair A ; B, B's register facts and the clashing (job, block) pairs
+    (CMD blockdep_explain of build/waits).  Returns (facts for the violation key, detail dict)."""
+    o = models.run("blockdep_explain", [case[:5] + [op_index] + case[5:]], exe_name=EXE)[0]
+    if o[0] != 1:
+        return {}, {"explain": o}
+    vn = ["region", "base0", "base1", "base2", "base3", "height_0", "height_1", "width_0", "stride_x", "stride_y", "stride_c", "elem",
+          "nhcwb16", "height", "width", "depth"]
+    kind = {2: "CONV", 3: "DEPTHWISE", 5: "POOL", 6: "ELEMENTWISE"}
+    d = {"A": {"op": kind.get(o[1], o[1]), "ofm_block_config(h,w,d)": o[8:11], "n_blocks": o[4], "ofm": dict(zip(vn, o[14:30]))},
+         "B": {"op": kind.get(o[2], o[2]), "BLOCKDEP": o[3], "ofm_block_config(h,w,d)": o[11:14], "n_jobs": o[5], "ifm_depth_slices": o[6],
+               "ifm_read": dict(zip(vn, o[30:46])), "uses_ifm2": o[46], "ifm2_read": dict(zip(vn, o[47:63]))},
+         "operation_level_clash(weights over OFM / LUT overwritten)": bool(o[7])}
+    pt, pl, pb, pr, sy, sx, kh, kw, up = o[63:72]
+    d["B"].update({"pad(top,left,bottom,right)": [pt, pl, pb, pr], "stride(y,x)": [sy, sx], "dilated_kernel(h,w)": [kh, kw], "upscale": up})
+    pairs = []
+    p = 72
+    while p + 27 <= len(o):
+        f, b, cl = o[p:p + 3]
+        if cl:
+            pairs.append({"job_f_of_B": f, "b_th_last_block_of_A": b,
+                          "A_block_box[y0,y1,x0,x1,c0,c1)": o[p + 3:p + 9], "B_ofm_block_box": o[p + 9:p + 15],
+                          "B_ifm_box_read": o[p + 15:p + 21], "B_ifm2_box_read": o[p + 21:p + 27] if o[46] else None})
+        p += 27
+    d["clashing_pairs(f+b<BLOCKDEP and a byte of A's block is read by B's job)"] = pairs
+    iv = d["B"]["ifm_read"]
+    # the view is larger than the tile sizes can partition and tile bases coincide: one stored byte is read at two positions
+    aliased = (iv["height_0"] < iv["height"] and iv["base2"] in (iv["base0"], iv["base0"] + (iv["height_0"] - 1) * iv["stride_y"])) or \
+              (iv["width_0"] < iv["width"] and iv["base1"] in (iv["base0"], iv["base0"] + (iv["width_0"] - 1) * 16 * iv["elem"]))
+    facts = {"b_pad_top_ne_right": bool(pt != pr), "b_ifm_tiles_alias": bool(aliased)}
+    return facts, d
+
+
 def hw_limits(u65):
     """(max outstanding DMA, max outstanding kernel operations) of the HARDWARE, pinned here as the property text's "both U55
     and U65 outstanding limits" (trusted hardware fact; equal to ArchitectureFeatures.max_outstanding_* of the unchanged tree).
@@ -1032,8 +1065,14 @@ def run(tier):
             if o[1] != 1:
                 which = "cross-queue" if o[2] >= 0 else "blockdep"
                 opi = o[2] if o[2] >= 0 else o[3]
-                fails.append(({"kind": "compiled_stream", "test": which, "net": r.get("net_name"), "seed": r["job"]["seed"]},
-                              {"job": r["job"], "stream": k, "op_index": opi, "validator": o,
+                facts, expl = ({}, {})
+                if which == "blockdep":
+                    try:
+                        facts, expl = explain_blockdep(ccases[cmeta.index((r, k))], opi)
+                    except Exception as ex:  # diagnostics only
+                        expl = {"explain_failed": repr(ex)}
+                fails.append((dict({"kind": "compiled_stream", "test": which, "net": r.get("net_name"), "seed": r["job"]["seed"]}, **facts),
+                              {"job": r["job"], "stream": k, "op_index": opi, "validator": o, "explanation": expl,
                                "replay_cmd": "cd /verif && /venv/bin/python tools/vela_worker.py %s/job.json" % r["job"]["out_dir"]},
                               "C04: %s hazard test rejects operation %d of a compiled stream (net %s ops %s, %s)"
                               % (which, opi, r.get("net_name"), r.get("net_desc"), " ".join(r["job"]["args"][:2]))))
